@@ -18,6 +18,7 @@ turn that into a violation.
 from __future__ import annotations
 
 import ast
+import collections
 import operator
 
 from .core import AnalysisError, txt
@@ -444,6 +445,23 @@ BUILTINS = {
     "print": lambda *a, **k: None,
 }
 
+
+def _namedtuple(typename, field_names, *, rename=False, defaults=None,
+                module=None):
+    """named tuples are plain tuples with named fields: attribute access is
+    index access, ordering is tuple ordering (the stdlib factory is a pure
+    constructor of such a class)"""
+    return collections.namedtuple(typename, field_names, rename=rename,
+                                  defaults=defaults)
+
+
+# standard-library names an interpreted module may use for plain data
+BUILTINS.update({
+    "namedtuple": _namedtuple,
+    "collections": NS("collections", namedtuple=_namedtuple,
+                      OrderedDict=dict),
+})
+
 _BIN = {ast.Add: operator.add, ast.Sub: operator.sub, ast.Mult: operator.mul,
         ast.Div: operator.truediv, ast.FloorDiv: operator.floordiv,
         ast.Mod: operator.mod, ast.Pow: operator.pow,
@@ -473,6 +491,31 @@ class Mini:
         for st in tree.body:
             if isinstance(st, ast.FunctionDef):
                 self.g[st.name] = self.bind(st)
+            elif isinstance(st, ast.ClassDef) and st.name not in self.g \
+                    and any(txt(b).split(".")[-1] == "NamedTuple"
+                            for b in st.bases):
+                # class X(typing.NamedTuple): a: T; b: T = default
+                fields, defaults = [], []
+                plain = True
+                for s in st.body:
+                    if isinstance(s, ast.AnnAssign) and isinstance(
+                            s.target, ast.Name):
+                        fields.append(s.target.id)
+                        if s.value is not None:
+                            try:
+                                defaults.append(self.expr(s.value, {}, set()))
+                            except (MiniError, ModelFault):
+                                plain = False
+                        elif defaults:
+                            plain = False
+                    elif isinstance(s, ast.Expr) and isinstance(
+                            s.value, ast.Constant):
+                        continue        # docstring
+                    else:
+                        plain = False   # methods: not a plain record
+                if plain and fields:
+                    self.g[st.name] = collections.namedtuple(
+                        st.name, fields, defaults=defaults or None)
         for st in tree.body:
             if isinstance(st, ast.Assign) and len(st.targets) == 1 \
                     and isinstance(st.targets[0], ast.Name):
